@@ -147,6 +147,25 @@ def run(ctx):
     ctx.sample({"validated_calls": " ".join(S.render(f) for f in progs[0])[:600]})
     ctx.stage("validate", programs=n, mismatches=len(mism))
     run_pairs(ctx, tier)
+    # ---- equal? and memv on NUMBERS inside lists: the value model's numbers are exact integers, so these calls are judged by the
+    # numeric specification (NumbersX: the eqv? verdict - same exactness and numerically equal); equal? of two lists is eqv? of
+    # their leaves, memv finds an element exactly when it is eqv? to the key
+    from . import numbers as N
+    I = lambda n: {"t": "int", "v": n}
+    Q = lambda n, d: {"t": "rat", "n": n, "d": d}
+    F = lambda s_, e, m: {"t": "real", "s": s_, "e": e, "m": m}
+    nums = [("2", I(2)), ("2.0", F(0, 128, 0)), ("4", I(4)), ("4.0", F(0, 129, 0)), ("1/2", Q(1, 2)), ("0.5", F(0, 126, 0)), ("2/4", Q(2, 4)),
+            ("0", I(0)), ("0.0", F(0, 0, 0)), ("-0.0", F(1, 0, 0)), ("(/ 4 2)", I(2)), ("(+ 1/4 1/4)", Q(1, 2)), ("2.5", F(0, 128, 2097152)), ("5/2", Q(5, 2))]
+    shapes = ["(equal? %s %s)", "(equal? (list %s) (list %s))", "(equal? (cons 'a %s) (cons 'a %s))", "(equal? (list 'a (list %s) 'b) (list 'a (list %s) 'b))",
+              "(equal? (list 1 2 %s) (list 1 2 %s))", "(pair? (memv %s (list 'x %s 'y)))", "(pair? (memv %s (list %s)))"]
+    ec = []
+    for (ta, a) in nums:
+        for (tb, b) in nums:
+            for sh in shapes:
+                ec.append({"op": "eqv?", "srcs": [ta, tb], "args": [a, b], "text": sh % (ta, tb)})
+    bade, _ = N.validate_cases(ctx, ec, "equal-numbers", shards=2)
+    N.report(ctx, "C11", bade, "equal?/memv on numbers inside lists")
+    ctx.stage("equal-on-numbers", cases=len(ec), rejected=len(bade))
     ctx.assumptions += ["folds are given proper lists only (an improper list is outside their domain)",
                         "in the value model (Machine.tla) eq?/eqv? on pairs is not constrained; identity of pairs is decided by the heap model Pairs.tla (freshly built lists only: the identity of quoted constants is left open by R7RS)"]
     return ctx.finish(rule="replay: every library procedure on every list of length <= 3 over 4 element kinds (proper, improper, nested) and every index -1..4, with ticking procedure arguments (Programs!ListFamily; ListLaw states the algebraic laws on the machine's results); "
